@@ -7,13 +7,18 @@
      managed st st' out = len(_buf before) + len(_buf after) + len(res) + len(tmp) + bytes read,
      live = managed + memory held inside the decoder objects (abstract [held]).
    [honest s]: the decoder honours max_length (lzma.LZMADecompressor, bz2.BZ2Decompressor,
-   pyppmd); [tame s] with (r, c0): it ignores max_length and one call returns at most
-   r*len(input)+c0 bytes (CopyDecompressor, BCJ, AES: r = 1; DeflateDecompressor,
-   Deflate64Decompressor, ZstdDecompressor, BrotliDecompressor: r in the thousands).
+   pyppmd; DeflateDecompressor and ZstdDecompressor since their repair);
+   [nearly s] with c: it honours max_length up to c bytes (BrotliDecompressor since its
+   repair: output_buffer_limit stops at the end of an internal output block);
+   [tame s] with (r, c0): it ignores max_length and one call returns at most
+   r*len(input)+c0 bytes (CopyDecompressor, BCJ, AES: r = 1; Deflate64Decompressor: r in
+   the ten thousands; Deflate/Zstd/Brotli before the repair: r in the thousands).
 
    Verdict encoded below:
    * chains whose LAST decoder honours max_length: bounded by 2*max_length + block_size
      (+ held), whatever the member size             -- C20_live_bytes_bounded, C20_worker_live_bounded
+   * chains whose last decoder honours max_length up to c bytes: _buf <= max_block + c and
+     managed <= 4*max_block + 3*c + block_size       -- C20_live_bytes_bounded_slack, C20_worker_live_bounded_slack
    * any chain: bounded by block_size x expansion ratio, not by the declared output
                                                     -- C20_carry_bounded_general / _seq / _single
    * but not by any function of max_length and block_size alone: the bound grows with
@@ -111,6 +116,57 @@ Theorem C20_first_stage_held_bounded :
                     consumed st' <= input_size st.
 Proof. exact first_stage_held_bounded. Qed.
 Print Assumptions C20_first_stage_held_bounded.
+
+(* ---- decoders that honour max_length up to c bytes ------------------------- *)
+Theorem C20_live_bytes_bounded_slack :
+  forall (S : Type) (dstep : S -> bytes -> Z -> S * bytes) (nearly : S -> Prop) (c : Z),
+    0 <= c ->
+    (forall s d ml, nearly s -> nearly (fst (dstep s d ml))) ->
+    (forall s d ml, nearly s -> 0 <= ml -> zlen (snd (dstep s d ml)) <= ml + c) ->
+    forall (M : Z) (st st' : dstate S) (ml : Z) (rd : nat) (out : bytes),
+      buf_inv st -> last_ok nearly (stages st) -> 0 <= ml <= M ->
+      zlen (buf st) <= M + c ->
+      decompress dstep st ml rd = Ok (st', out) ->
+      buf_inv st' /\ last_ok nearly (stages st') /\
+      zlen out <= ml /\ tmp_len st st' out <= ml + c /\
+      zlen (buf st') <= M + c /\
+      managed st st' out <= 4 * M + 3 * c + Z.max 0 (block_size st) /\
+      block_size st' = block_size st.
+Proof. exact live_bytes_bounded_slack. Qed.
+Print Assumptions C20_live_bytes_bounded_slack.
+
+Theorem C20_worker_live_bounded_slack :
+  forall (S : Type) (dstep : S -> bytes -> Z -> S * bytes) (nearly : S -> Prop) (c : Z),
+    0 <= c ->
+    (forall s d ml, nearly s -> nearly (fst (dstep s d ml))) ->
+    (forall s d ml, nearly s -> 0 <= ml -> zlen (snd (dstep s d ml)) <= ml + c) ->
+    forall (fuel : nat) (st st' : dstate S) (size mb : Z) (sched : list nat) (out : bytes) (pk : Z),
+      buf_inv st -> last_ok nearly (stages st) -> 0 <= mb -> zlen (buf st) <= mb + c ->
+      worker_peak dstep fuel st size mb sched = Ok (st', out, pk) ->
+      pk <= 4 * mb + 3 * c + Z.max 0 (block_size st) /\ zlen (buf st') <= mb + c /\
+      block_size st' = block_size st.
+Proof. exact worker_live_bounded_slack. Qed.
+Print Assumptions C20_worker_live_bounded_slack.
+
+Theorem C20_toy_live_bytes_bounded_slack :
+  forall (K M : Z) (st st' : dstate toy_state) (ml : Z) (rd : nat) (out : bytes),
+    buf_inv st -> last_ok (mtoy_slack K) (stages st) -> 0 <= ml <= M ->
+    zlen (buf st) <= M + Z.max 0 K ->
+    decompress mtoy_dstep st ml rd = Ok (st', out) ->
+    buf_inv st' /\ last_ok (mtoy_slack K) (stages st') /\
+    zlen out <= ml /\ tmp_len st st' out <= ml + Z.max 0 K /\
+    zlen (buf st') <= M + Z.max 0 K /\
+    managed st st' out <= 4 * M + 3 * Z.max 0 K + Z.max 0 (block_size st) /\
+    block_size st' = block_size st.
+Proof. exact toy_live_bytes_bounded_slack. Qed.
+Print Assumptions C20_toy_live_bytes_bounded_slack.
+
+Example C20_live_bytes_bounded_slack_applies :
+  let st := init_state [toy_st 0 0 []; toy_st 4 7 []] [100; 700] 9 4 [1; 2; 3; 4; 5; 6; 7; 8; 9] in
+  buf_inv st /\ last_ok (mtoy_slack 6) (stages st) /\
+  exists st' outs, decompress_seq mtoy_dstep st [(10, 9%nat); (3, 9%nat)] = Ok (st', outs) /\
+                   zlen outs = 13 /\ zlen (buf st') = 4 /\ pos st' = 3.
+Proof. exact live_bytes_bounded_slack_applies. Qed.
 
 (* ---- decoders that ignore max_length -------------------------------------- *)
 Theorem C20_carry_bounded_general :
